@@ -1042,6 +1042,24 @@ func (r *Resolver) checkDname(
 	return msg, targetCut, nil
 }
 
+var errAnswerMismatch = errors.New("answer section does not answer the question")
+
+// answersQuestion reports whether some record of an answer section is of the
+// question's type, or an alias (CNAME, DNAME) that leads on from it; every
+// record answers a question of type ANY.
+func answersQuestion(answer []dns.RR, q dns.Question) bool {
+	for _, rr := range answer {
+		switch rr.Header().Rrtype {
+		case q.Qtype, dns.TypeCNAME, dns.TypeDNAME:
+			return true
+		}
+		if q.Qtype == dns.TypeANY {
+			return true
+		}
+	}
+	return false
+}
+
 func (r *Resolver) answer(ctx context.Context, req, resp *dns.Msg, parentDS []dns.RR, zone string, extra ...bool) (*dns.Msg, error) {
 	// The servers that sent resp speak for zone and nothing else. An
 	// answer record owned outside it — the target of an alias that
@@ -1050,6 +1068,15 @@ func (r *Resolver) answer(ctx context.Context, req, resp *dns.Msg, parentDS []dn
 	// validates, caches or relays it, and an alias that leaves the zone
 	// is followed by asking the target's own servers.
 	resp.Answer = dnsutil.FilterRRsToZone(resp.Answer, zone)
+
+	// And what is left has to be an answer to the question: a record of
+	// the type that was asked, or an alias leading on. A reply whose answer
+	// section holds only something else — the zone's genuine, signed TXT
+	// RRset in reply to an A question verifies perfectly well — neither
+	// answers the question nor proves the type absent.
+	if len(resp.Answer) > 0 && !answersQuestion(resp.Answer, req.Question[0]) {
+		return nil, errAnswerMismatch
+	}
 
 	// The internal recursion's target response is held back until
 	// after the outer DNSSEC check. Merging target records into resp
